@@ -572,7 +572,28 @@ func judge(e *ev.Env, c *ev.Case, p *pair) {
 	d, v := observe(p.cfg)
 	var A, B vec
 	input := p.m()
+	// History: a request from a peer of the *other* trust class served first by the same app
+	// (and, sequentially on one goroutine, by the same pooled context) must not leak its trust
+	// decision into the judged pair.
+	ref0 := reference(p.cfg, p.peer)
+	warmed := ""
+	if c.R.Bool() {
+		for _, cand := range []string{"198.51.100.77", "127.0.0.1", "10.1.2.3", "169.254.9.9", "2001:db8:ffff::9", "::1", "fd00::7"} {
+			a := netip.MustParseAddr(cand)
+			ra := reference(p.cfg, a)
+			if (len(ra.reasons) > 0) != (len(ref0.reasons) > 0) && ra.ambiguous == "" && ref0.ambiguous == "" {
+				warmed = cand
+				break
+			}
+		}
+	}
 	if e.Guard(c, "C10|panic", input, func() {
+		if warmed != "" {
+			w := *p
+			w.remote = tcp(warmed)
+			w.do(d, v, []fwd{{name: "X-Forwarded-For", val: "9.9.9.9"}, {name: "X-Forwarded-Host", val: "warm.example"}, {name: "X-Forwarded-Proto", val: "https"}})
+			e.Stat("pairs_after_other_trust_class_history", 1)
+		}
 		A = p.do(d, v, p.hdrs)
 		B = p.do(d, v, nil)
 	}) {
